@@ -242,6 +242,14 @@ def SkipRule.skips : SkipRule → (remote : Bool) → OffIdx → Bool
   | .localNotExist, false, .notExist => true
   | _, _, _ => false
 
+/-- one turn of the loop of `GetRepositoryIndexes`: repository `u` gave `r`, the others gave `rest` -/
+def offlineCons (rule : SkipRule) (u : Url) (isRemote : Bool) (r : OffIdx) (rest : Option (List (Url × Body))) :
+    Option (List (Url × Body)) :=
+  match r with
+  | .index b => rest.map fun l => (u, b) :: l
+  | .notExist => if rule.skips isRemote .notExist then rest else none
+  | .failed => if rule.skips isRemote .failed then rest else none
+
 /-- `GetRepositoryIndexes` of an offline build over `repos` (`remote u`: an http(s) repository, read through the
 cache; otherwise a local one, read from the file system: `loc u`): the indexes the resolver gets, each with the
 repository it belongs to, or `none` — the build fails -/
@@ -249,9 +257,8 @@ def offlineIndexes (rule : SkipRule) (cfg : Cfg) (s : St) (remote : Url → Bool
     List Url → Option (List (Url × Body))
   | [] => some []
   | u :: rest =>
-    match (if remote u then offlineIndex cfg s u else loc u) with
-    | .index b => (offlineIndexes rule cfg s remote loc rest).map fun l => (u, b) :: l
-    | r => if rule.skips (remote u) r then offlineIndexes rule cfg s remote loc rest else none
+    offlineCons rule u (remote u) (if remote u then offlineIndex cfg s u else loc u)
+      (offlineIndexes rule cfg s remote loc rest)
 
 /-- the same repositories read without the disk cache while the server is reachable (what the offline build has to
 reproduce): every remote repository contributes the index it serves now -/
@@ -268,7 +275,7 @@ def directIndexes (s : St) (remote : Url → Bool) (loc : Url → OffIdx) : List
       | .notExist => directIndexes s remote loc rest
       | .failed => none
 
-/-- the rule of the code as it is -/
-def skipReal : SkipRule := .anyNotExist
+/-- the rule of the code as it is (after the fix F19f) -/
+def skipReal : SkipRule := .localNotExist
 
 end Apko.CacheGlue
